@@ -4,7 +4,10 @@ patch=$1; shift
 git -C /repo apply "$patch" || { echo "patch does not apply"; exit 2; }
 for p in "$@"; do
   echo "--- $p"
-  (cd /verif && ./check $p --tier quick 2>&1 | grep -E "VIOLATION|KNOWN|^\[check\] C|^\[check\]   " | head -8)
+  out=$(cd /verif && ./check $p --tier quick 2>&1)
+  echo "$out" | grep -E "^\[check\] C|^\[check\]   [0-9]+ |lean build failed" | head -6
+  echo "$out" | grep -E "^\[check\]    Varint" | head -4
+  echo "$out" | grep -E "VIOLATION|KNOWN" | head -6
 done
 git -C /repo checkout -- .
 git -C /repo status --short | grep -v "^??" | head -3
